@@ -83,6 +83,11 @@ class SamplerRun:
         self.client = bk.make_client(elfi, fac, self.backend)
         elfi.set_client(self.client)
         self.monitor = bk.ClientMonitor(self.client, self.backend, out, fac)
+        # every task is tagged with the submission it belongs to (recording ops log it)
+        self.cur_req = None
+        self.req_info = {}        # req id -> dict(call, bi, held=pool entries at submission)
+        self._nreq = 0
+        sp.mark_client(self.client, lambda: self.cur_req)
         if model is None:
             model, _ = sp.build_model(elfi, spec, order=order)
         self.model = model
@@ -141,10 +146,18 @@ class SamplerRun:
             self.submitted.append((self.call_no, bi, batch))
             if s.batches.num_pending > 0:
                 out.probes['speculative_submit'] += 1
+            self._nreq += 1
+            self.cur_req = 'q%d' % self._nreq
+            held = ()
+            if s.pool is not None:
+                held = tuple(sorted(s.pool.get_batch(bi).keys()))
+            self.req_info[self.cur_req] = {'call': self.call_no, 'bi': bi, 'held': held,
+                                           'override': sorted(batch) if batch else []}
             try:
                 return orig_submit(batch)
             finally:
                 mon.current_bi = None
+                self.cur_req = None
 
         def cancel_pending():
             n = s.batches.num_pending
